@@ -488,6 +488,7 @@ impl CodegenContext {
                 self.source_map.add(
                     self.current_scope_nx,
                     span,
+                    name,
                     segment.target_pc(),
                     bytes.len(),
                 );
